@@ -123,7 +123,8 @@ func (o *Operations) archive(
 				return []*tar.Header{}, err
 			}
 
-			signer, sign, err := signature.Sign(f, writer.DriveIsRegular, o.pipes.Signature, o.crypto.Identity)
+			// Read the source the same way in the size-counting pass and in the writing pass below (i.e. never through `io.WriterTo`): the encoded size of some formats depends on how the input is chunked
+			signer, sign, err := signature.Sign(struct{ io.Reader }{f}, writer.DriveIsRegular, o.pipes.Signature, o.crypto.Identity)
 			if err != nil {
 				return []*tar.Header{}, err
 			}
@@ -233,12 +234,12 @@ func (o *Operations) archive(
 		}
 
 		if writer.DriveIsRegular {
-			if _, err := io.Copy(compressor, f); err != nil {
+			if _, err := io.Copy(compressor, struct{ io.Reader }{f}); err != nil {
 				return []*tar.Header{}, err
 			}
 		} else {
 			buf := make([]byte, config.MagneticTapeBlockSize*o.pipes.RecordSize)
-			if _, err := io.CopyBuffer(compressor, f, buf); err != nil {
+			if _, err := io.CopyBuffer(compressor, struct{ io.Reader }{f}, buf); err != nil {
 				return []*tar.Header{}, err
 			}
 		}
